@@ -394,11 +394,16 @@ func c11Cases(fillerEnd int, window int, thorough bool, visit func(c c11Case, d 
 func c11Tasks(tier string) []Task {
 	var tasks []Task
 	chunk := 16
-	window := 48
 	for lo := 0; lo < 32768; lo += chunk {
 		lo := lo
-		if tier == "quick" && !(lo < 128 || lo >= 32768-128 || lo%4096 == 2048 || lo%4096 == 2064) {
+		inQuickSet := lo < 128 || lo >= 32768-128 || lo%4096 == 2048 || lo%4096 == 2064
+		if tier == "quick" && !inQuickSet {
 			continue
+		}
+		// thorough: every start offset; the record-length window is +-48 on the quick tier's offsets, +-24 elsewhere
+		window := 48
+		if !inQuickSet {
+			window = 24
 		}
 		tasks = append(tasks, Task{Level: "offset-sweep", Name: fmt.Sprintf("start offsets %d..%d", lo, lo+chunk-1), Fn: func(res *TaskResult) {
 			for e := lo; e < lo+chunk; e++ {
@@ -413,7 +418,7 @@ func c11Tasks(tier string) []Task {
 					announce(func() string { return c.String() })
 					// MMap: everything in the quick tier's offset set; in the thorough tier (all offsets) the
 					// boundary-critical part of the window (the back-ends differ in the I/O layer only)
-					withMM := tier == "quick" || (d >= -16 && d <= 16)
+					withMM := tier == "quick" || (d >= -12 && d <= 12)
 					v := c11Exec(c, fl, res, withMM)
 					res.Nontrivial++
 					res.States = append(res.States, hash64(fmt.Sprint(e, c.Recs[0].VLen%32768, c.Staged)))
@@ -520,7 +525,7 @@ func init() {
 		Rule:   "for every reachable start offset of the sweep set: record lengths in a +-48 window around the end-of-block boundary for records spanning 1, 2 and 3 blocks, plus tiny records; each as single writes and as one FlushStaged group; FileIO and MMap; sequential + random read-back, sizes, positions, EOF, byte-identical files, reopen + append. Every case is distinct by construction",
 		Assumptions: []string{
 			"format-agnostic oracle: positions/sizes are those the writer returned; the only constant is 'a gap before a record is < 32 bytes and only when the record starts a block'",
-			"quick tier: start offsets 0..127, 32640..32767 and 64 offsets in the middle of every 4 KiB; thorough tier: all 32768",
+			"quick tier: start offsets 0..127, 32640..32767 and 64 offsets in the middle of every 4 KiB (record lengths +-48 around 1, 2, 3 block ends); thorough tier: all 32768 start offsets (+-24 outside the quick tier's offsets; MMap within +-12)",
 		},
 		Tasks: c11Tasks,
 		Bounds: func(tier string) map[string]any {
